@@ -20,6 +20,8 @@ type Scenario struct {
 	// Run builds the system inside the bubble, drives it through w, and reports through w.Violate.
 	// It must leave the bubble drained (every context cancelled, w.Run() called until all tasks are done).
 	Run func(w *World)
+	// Info returns static facts about the scenario for the evidence (e.g. what discovery covered and what it did not).
+	Info func() any
 	// Real / Stub describe which components run real code and which are harness stubs.
 	Real, Stub []string
 	// NoLeakCheck disables the end-of-run goroutine check (never for scenarios whose property includes it).
